@@ -240,7 +240,8 @@ class ConvSim(WorldBase):
                 def blank(n):
                     return [blank(x) for x in n] if isinstance(n, list) else default
                 nest[g.randrange(dims[0])] = blank(nest[0])
-            evs.append(["nest", {"nest": nest, "dims": dims, "default": default, "form": g.choice(["tensor", "fiber"])}])
+            evs.append(["nest", {"nest": nest, "dims": dims, "default": default, "form": g.choice(["tensor", "fiber"]),
+                                 "ragged_first": g.random() < 0.3}])
         return evs
 
     def ev_nest(self, a):
@@ -256,6 +257,15 @@ class ConvSim(WorldBase):
             elif n != default:
                 want[pt] = n
         rec(nest, ())
+        if a.get("ragged_first") and len(dims) >= 2:
+            # the program first hands over a ragged nest (rejected, if the library checks at all); the next,
+            # rectangular nest is converted as if nothing had happened
+            rag = copy.deepcopy(nest)
+            try:
+                rag[0] = rag[0] + [1] if isinstance(rag[0], list) else rag
+                Fiber.fromUncompressed(rag, default=default)
+            except Exception:
+                self.fault("rejected:ragged-nest")
         try:
             if a["form"] == "tensor":
                 t = Tensor.fromUncompressed([f"R{i}" for i in range(len(dims))], copy.deepcopy(nest), default=default)
@@ -288,6 +298,19 @@ class ConvSim(WorldBase):
         bad = stored_defaults(root)
         if bad:
             self.V("C13", "C13.nest", "nest", f"fromUncompressed({nest}) stores explicit defaults / empty sub-fibers at {bad[:4]}")
+        # an earlier walk of the program used the position shortcut and was left with break: nothing of that
+        # may matter to the conversion
+        try:
+            if isinstance(root, Fiber) and len(root.coords) >= 2:
+                for n_, _ in enumerate(root.__iter__(start_pos=0)):
+                    if n_ >= 1:
+                        break
+                sub = root.payloads[-1]
+                if isinstance(sub, Fiber) and len(sub.coords) >= 2:
+                    sub.getPayload(sub.coords[-1], start_pos=len(sub.coords) - 1)
+                self.probe("nest_walked_with_shortcut_before_uncompress")
+        except Exception:
+            pass
         try:
             back = root.uncompress(list(dims))
         except Exception as e:
